@@ -50,7 +50,7 @@ var glPool = []string{"a.js", "z.js", "m.txt", "src/a.js", "src/b.txt", "src/dee
 var glDirs = []string{"empty", "src/emptydir", ".hiddenempty"}
 var glPatterns = []string{"*.js", "**/*.js", "src/*", "*/*", "**", "src/**", "src/**/*.js", "{src,lib}/*.js", "*.{js,txt}", "src/*.js", "**/c.js",
 	"src/deep/*", "lib/**", "*", "**/*", "s*/*.js", "src/**/d.js", "**/*.txt", "*/deep/*.js", "**/deep/**", "lib/*", "**/.h.js",
-	"./*.js", "./src/*.js", "./**/*.txt", "src/./*.js"}
+	"./*.js", "./src/*.js", "./**/*.txt", "src/./*.js", ".*", ".d/*.js", ".*/*.js", ".*.js", "src/.*"}
 
 func (globScen) Gen(r *Rng, cfg GenConfig) any {
 	c := &GlobCase{}
@@ -131,12 +131,30 @@ func (globScen) Exec(w *World, cc any, prop string) *Result {
 			return nil, false
 		}
 		res.Ops++
+		// the task's own record of its patterns (public fields, same order as declared) says under which
+		// key the implementation files each expansion, should it normalise patterns
+		stored := map[string]string{}
+		if t, ok := sf.Tasks["glob"]; ok {
+			if len(t.GlobDependencies) == len(c.Deps) {
+				for i, p := range c.Deps {
+					stored[p] = t.GlobDependencies[i]
+				}
+			}
+			if len(t.GlobOutputs) == len(c.Outs) {
+				for i, p := range c.Outs {
+					stored[p] = t.GlobOutputs[i]
+				}
+			}
+		}
 		out := map[string][]string{}
 		for _, p := range pats {
 			var files []string
 			// SpokFile.Globs is documented as "glob pattern -> concrete filepaths"; an implementation
 			// that normalises patterns consistently may key it by the cleaned spelling
 			expanded, ok := sf.Globs[p]
+			if k, has := stored[p]; has && k != p {
+				expanded, ok = sf.Globs[k]
+			}
 			if !ok {
 				expanded = sf.Globs[path.Clean(p)]
 			}
